@@ -348,6 +348,12 @@ func (w *World) genInput(r *core.Rand) *C11Run {
 		}
 	}
 	in := []byte(sb.String())
+	if r.Intn(6) == 0 {
+		// a lexical error first (the driver resynchronises and resets the
+		// machine), then the rest of the input
+		in = append([]byte{[]byte("\x01$`")[r.Intn(3)], '\n'}, in...)
+		run.Faults = append(run.Faults, "errorprefix@0")
+	}
 	// faults on the stored bytes / the end of the stream
 	nf := r.Intn(4)
 	for f := 0; f < nf; f++ {
